@@ -294,6 +294,17 @@ Definition do_race (n : nat) (x : N) (y : nat) (w : world) : world * (N * ev2) :
   let '(w2, (_, o2)) := do_drop n x y w1 in
   (w2, (rc, drop_obs x y (app2 o1 o2))).
 
+(* bounce: user protocol y of node x force-closes the connection the moment it is told about it, A dials B
+   (the applications poll sparsely; the model is the same). rc 2: the step cannot be run. *)
+Definition do_bounce (n : nat) (x : N) (y : nat) (w : world) : world * (N * ev2) :=
+  if negb (w_up (wa w)) || negb (w_up (wb w)) || negb (x <=? 1) || negb (y <=? n)%nat ||
+     negb (nth y (nd_alive (w_nd (sel x w))) false) then (w, (2, ([], [])))
+  else
+    let '(w1, (rc, o1)) := do_connect n w in
+    if rc =? 0 then
+      let '(w2, (_, o2)) := do_force n x y w1 in (w2, (rc, app2 o1 o2))
+    else (w1, (rc, o1)).
+
 Definition estep (n : nat) (w : world) (s : N * (N * (N * N))) : world * (N * ev2) :=
   let '(op, (a, (b, c))) := s in
   match op with
@@ -307,6 +318,7 @@ Definition estep (n : nat) (w : world) (s : N * (N * (N * N))) : world * (N * ev
   | 17 => do_idle n w
   | 20 => do_idle n w      (* idle expiry while the other side keeps opening refused substreams *)
   | 18 => do_shutdown n w
+  | 21 => do_bounce n a (N.to_nat b) w
   | _ => (w, (2, ([], [])))
   end.
 
@@ -671,6 +683,8 @@ Definition dead_silent (n : nat) (al : list bool) (ls : list (list N)) : bool :=
 Definition kill (x : N) (y : nat) (al : list bool * list bool) : list bool * list bool :=
   if x =? 0 then (set_nth y false (fst al), snd al) else (fst al, set_nth y false (snd al)).
 
+Definition count_k1 (l : list N) : nat := length (filter (N.eqb 1) l).
+
 Definition estep_ok (n : nat) (p : pst) (s : N * (N * (N * N))) (rc : N) (la lb : list (list N)) : option pst :=
   let '(op, (a, (b, _))) := s in
   let y := N.to_nat b in
@@ -706,8 +720,13 @@ Definition estep_ok (n : nat) (p : pst) (s : N * (N * (N * N))) (rc : N) (la lb 
               (if existsb (fun x => x) (fst al1) && existsb (fun x => x) (snd al1)
                then appa && appb else Bool.eqb appa appb)
          else true) &&
+        (* bounce: the new connection is announced to both applications (exactly once; that it is announced
+           BEFORE it is reported closed is what seq_ok demands of every observer) *)
+        (if (op =? 21) && (rc =? 0) && p_bup p && negb appa0 && negb appb0
+         then (count_k1 (hd [] la) =? 1)%nat && (count_k1 (hd [] lb) =? 1)%nat else true) &&
         (* termination causes terminate *)
-        (if ((op =? 15) && (rc =? 0)) || (op =? 16) || (op =? 17) || (op =? 20) || ((op =? 18) && (rc =? 0))
+        (if ((op =? 15) && (rc =? 0)) || (op =? 16) || (op =? 17) || (op =? 20) || ((op =? 18) && (rc =? 0)) ||
+            ((op =? 21) && (rc =? 0))
          then negb appa && (negb bup1 || negb appb) else true) in
       if ok then Some (mkP (ca, cb) al1 bup1) else None
   | _, _ => None
